@@ -158,8 +158,23 @@ def params_text():
     skip_ok = flush_shape(tries[0].orelse, "success branch")
     if skip_wr != skip_ok:
         _fail("the WANT_READ branch and the success branch disagree on when the send lock is taken")
+    # aclose(): does it still send what unwrap() left in the outgoing BIO when unwrap() failed with an SSLError?
+    acl = _find(tree, "AsyncTLSStreamTransport.aclose")
+    utries = [n for n in ast.walk(acl) if isinstance(n, ast.Try) and len(n.body) == 1 and "unwrap" in ast.unparse(n.body[0])]
+    if len(utries) != 1:
+        _fail("aclose: the try statement around unwrap() was not found")
+    hs = utries[0].handlers
+    late = ("if self._write_bio.pending:\n    with contextlib.suppress(OSError):\n        async with self.__transport_send_lock:\n"
+            "            if self._write_bio.pending:\n                await self._transport.send_all(self._write_bio.read())")
+    if len(hs) == 1 and ast.unparse(hs[0].type) == "OSError" and ast.unparse(hs[0].body[0]) == "pass":
+        close_flush = "false"
+    elif (len(hs) == 2 and ast.unparse(hs[0].type).endswith("SSLError") and len(hs[0].body) == 1
+          and ast.unparse(hs[0].body[0]) == late and ast.unparse(hs[1].type) == "OSError" and ast.unparse(hs[1].body[0]) == "pass"):
+        close_flush = "true"
+    else:
+        _fail("aclose: handlers of the try statement around unwrap() not recognised")
     return ("From EN Require Import Conc.TlsPump.\n"
-            f"Definition tls_flags : flags := {{| f_recheck := {flag}; f_skiplock := {skip_wr} |}}.\n")
+            f"Definition tls_flags : flags := {{| f_recheck := {flag}; f_skiplock := {skip_wr}; f_close_flush := {close_flush} |}}.\n")
 
 
 MARKER = b"<<PLAINTEXT-MARKER-C08>>"
